@@ -1,16 +1,563 @@
-"""C-accelerator side of the rules (filled in as the C front end lands)."""
+"""C-accelerator side of the rules (clang AST of the build configuration)."""
+from ..core import AnalysisError
+from ..cfront import (unit, ccfg, show, calls, c_assigned, c_reaching,
+                      node_calls, nodes_calling, returns, is_var, is_field,
+                      witness, E)
+
+CACHE_FIELDS = ('_cache', '_mcache', '_scache')
+WORKERS = {'lookup': '_lookup', 'lookup1': '_lookup1',
+           'queryAdapter': '_adapter_hook', 'adapter_hook': '_adapter_hook',
+           'lookupAll': '_lookupAll', 'subscriptions': '_subscriptions'}
+UNCACHED = {'_lookup': ('str_uncached_lookup', '_cache', 3),
+            '_lookupAll': ('str_uncached_lookupAll', '_mcache', 2),
+            '_subscriptions': ('str_uncached_subscriptions', '_scache', 2)}
+
+
+def cu(rep):
+    u = unit(rep.repo.root)
+    if '_zope_interface_coptimizations.c' not in rep.repo.files_parsed:
+        rep.repo.files_parsed.append('_zope_interface_coptimizations.c')
+        rep.repo._src['_zope_interface_coptimizations.c'] = open(u.path).read()
+        rep.assume('C analysis covers the preprocessor configuration of the '
+                   'installed interpreter only (heap types; -DNDEBUG): ' + u.cmd)
+    return u
+
+
+def where(n):
+    return '_zope_interface_coptimizations.c:%s' % (n.line if n is not None else '?')
+
+
+def ccheck(rep, rule, site, ok, detail, construct='', node=None):
+    o = rep.check(rule, site, ok, detail, construct=construct, config='C')
+    rep.obls[-1].where = where(node) if node is not None else \
+        '_zope_interface_coptimizations.c'
+    return o
+
+
+def pred_call(name, argpred=None):
+    def p(n):
+        for c in node_calls(n, name):
+            if argpred is None or argpred(c):
+                return True
+        return False
+    return p
+
+
+def struct_pyobject_fields(u, name):
+    return [f for f, t in u.structs.get(name, []) if t.replace(' ', '') == 'PyObject*']
+
+
+# ---------------------------------------------------------------------------
+
+def clears_all(rep, rule, u, struct, clear_fn, traverse_fn):
+    fields = struct_pyobject_fields(u, struct)
+    rep.require(bool(fields), 'struct %s has no PyObject* members' % struct)
+    f = u.func(clear_fn)
+    g = ccfg(f)
+    for fld in fields:
+        p = pred_call('Py_CLEAR', lambda c, fld=fld: is_field(c.a[1][0], 'self', fld))
+        ok = g.must_pass_after(g.entry, p)
+        ccheck(rep, rule, clear_fn, ok,
+               'Py_CLEAR(self->%s) on every path' % fld if ok else
+               {'field_not_cleared': fld, 'path': witness(g, g.entry, p)},
+               construct='clear:' + fld, node=g.entry.succ[0][0] if g.entry.succ else None)
+    t = u.func(traverse_fn)
+    gt = ccfg(t)
+    for fld in fields:
+        p = pred_call('Py_VISIT', lambda c, fld=fld: is_field(c.a[1][0], 'self', fld))
+        ccheck(rep, rule, traverse_fn, gt.must_pass_after(gt.entry, p) or any(p(n) for n in gt.nodes),
+               'GC traversal visits self->%s' % fld, construct='visit:' + fld)
+    return fields
+
+
+def inv2_c(rep, u, rule='INV-2'):
+    fields = clears_all(rep, rule, u, 'LB', 'LB_clear', 'LB_traverse')
+    ccheck(rep, rule, 'struct LB', set(fields) == set(CACHE_FIELDS),
+           'cache members of struct LB: %s' % fields, construct='members')
+    f = u.func('LB_changed')
+    g = ccfg(f)
+    ccheck(rep, rule, 'LB_changed', g.must_pass_after(g.entry, pred_call('LB_clear')),
+           'LB_changed drops all three caches (LB_clear) on every path',
+           construct='changed')
+    lb = dict((n, fn) for n, fn, _ in u.method_table('LB_methods'))
+    vb = dict((n, fn) for n, fn, _ in u.method_table('VB_methods'))
+    ccheck(rep, rule, 'LB_methods', lb.get('changed') == 'LB_changed',
+           'LookupBase.changed is LB_changed (%s)' % lb.get('changed'),
+           construct='table')
+    ccheck(rep, rule, 'VB_methods', vb.get('changed') == 'verify_changed',
+           'VerifyingBase.changed is verify_changed (%s)' % vb.get('changed'),
+           construct='table')
+    clears_all(rep, rule, u, 'VB', 'VB_clear', 'VB_traverse')
+    f = u.func('VB_clear')
+    g = ccfg(f)
+    ccheck(rep, rule, 'VB_clear', g.must_pass_after(g.entry, pred_call('LB_clear')),
+           'VB_clear also clears the inherited caches (LB_clear)', construct='base')
+    f = u.func('verify_changed')
+    g = ccfg(f)
+    first = g.entry
+    ccheck(rep, rule, 'verify_changed',
+           g.must_pass_after(g.entry, pred_call('VB_clear')),
+           'verify_changed clears caches and snapshots (VB_clear) on every path',
+           construct='changed')
+
+
+def verify_first(rep, u, rule='INV-5'):
+    lb = dict((n, fn) for n, fn, _ in u.method_table('LB_methods'))
+    vb = dict((n, fn) for n, fn, _ in u.method_table('VB_methods'))
+    missing = sorted(set(lb) - set(vb))
+    ccheck(rep, rule, 'VB_methods', not missing,
+           'every LookupBase entry point is overridden in VerifyingBase '
+           '(missing: %s)' % missing, construct='coverage')
+    for name, fn in sorted(vb.items()):
+        if name == 'changed':
+            continue
+        worker = WORKERS.get(name)
+        if worker is None:
+            ccheck(rep, rule, fn, False, 'unknown entry point %s' % name,
+                   construct='worker')
+            continue
+        f = u.func(fn)
+        g = ccfg(f)
+        wn = nodes_calling(g, worker)
+        # the verify test: `_verify(self) < 0` with the T edge returning NULL
+        vt = [n for n in g.nodes if n.kind == 'test' and node_calls(n, '_verify')]
+        okv = False
+        detail = 'no `_verify(self) < 0` test'
+        if vt and wn:
+            v = vt[0]
+            e = v.e
+            okform = e.k == 'bin' and e.a[0] == '<' and e.a[2].k == 'const' and \
+                e.a[2].a[0] == 0
+            tnext = [m for m, lab in v.succ if lab == 'T']
+            okret = bool(tnext) and tnext[0].e is not None and \
+                tnext[0].e.k == 'return' and tnext[0].e.a[0] is not None and \
+                tnext[0].e.a[0].k == 'null'
+            okdom = all(g.dominated_by(w, lambda n: n is v) for w in wn)
+            okv = okform and okret and okdom
+            detail = ('_verify(self) < 0 -> return NULL (%s/%s) dominates the '
+                      'call of %s (%s)' % (okform, okret, worker, okdom))
+        elif not wn:
+            others = sorted({c.a[0] for n in g.nodes for c in node_calls(n)
+                             if isinstance(c.a[0], str)})
+            detail = ('does not call its worker %s directly (calls %s): the '
+                      'generation check is bypassed' % (worker, others))
+        ccheck(rep, rule, fn, okv, detail, construct='verify-first',
+               node=vt[0] if vt else None)
+        # worker gets the parsed arguments in the worker's order
+        if wn:
+            c = node_calls(wn[0], worker)[0]
+            args = [show(a) for a in c.a[1]]
+            want = {
+                '_lookup': ['self', 'required', 'provided', 'name', 'default_'],
+                '_lookup1': ['self', 'required', 'provided', 'name', 'default_'],
+                '_adapter_hook': ['self', 'provided', 'object', 'name', 'default_'],
+                '_lookupAll': ['self', 'required', 'provided'],
+                '_subscriptions': ['self', 'required', 'provided'],
+            }[worker]
+            ccheck(rep, rule, fn, args == want,
+                   '%s(%s) (required order %s)' % (worker, ', '.join(args), want),
+                   construct='worker-args', node=wn[0])
+
+
+def verify_compare(rep, u, rule='INV-5'):
+    f = u.func('_verify')
+    g = ccfg(f)
+    # every `return 0` is either after a changed() call or behind changed == 0
+    cmpn = [n for n in g.nodes if node_calls(n, 'PyObject_RichCompareBool')]
+    ok = len(cmpn) == 1
+    detail = 'comparisons: %d' % len(cmpn)
+    if ok:
+        c = node_calls(cmpn[0], 'PyObject_RichCompareBool')[0]
+        a, b, op = c.a[1]
+        opv = op.a[0] if op.k == 'const' else None
+        sides = {show(a), show(b)}
+        gen = [x for x in (a, b) if is_var(x)]
+        okargs = 'self->_verify_generations' in sides and len(gen) == 1
+        okgen = False
+        if okargs:
+            defs = c_reaching(g, cmpn[0], gen[0].a[0])
+            okgen = bool(defs) and all(
+                v is not None and v.k == 'call' and v.a[0] == '_generations_tuple'
+                and show(v.a[1][0]) == 'self->_verify_ro' for d, v in defs)
+        var = list(c_assigned(cmpn[0]))[0] if c_assigned(cmpn[0]) else None
+        # unchanged exit
+        unchanged = 0 if opv == 3 else (1 if opv == 2 else None)
+        chg = pred_call('PyObject_CallMethodObjArgs',
+                        lambda cc: len(cc.a[1]) > 1 and show(cc.a[1][1]) == 'strchanged')
+        okexit = unchanged is not None
+        if okexit:
+            for r in returns(g):
+                if r.e.a[0] is not None and r.e.a[0].k == 'const' and r.e.a[0].a[0] == 0:
+                    # paths reaching this return without changed()
+                    back = g.reach(r, avoid=chg, forward=False)
+                    if g.entry.id in back:
+                        # must be guarded by `changed == unchanged` T
+                        pr = [p for p, lab in r.pred]
+                        okg = all(p.kind == 'test' and p.e.k == 'bin' and p.e.a[0] == '=='
+                                  and is_var(p.e.a[1], var) and p.e.a[2].k == 'const'
+                                  and p.e.a[2].a[0] == unchanged for p in pr)
+                        okexit = okexit and okg
+        ok = okargs and okgen and okexit
+        detail = ('compares self->_verify_generations with '
+                  '_generations_tuple(self->_verify_ro) (%s/%s); returns without '
+                  'changed() only when they are equal (%s)' % (okargs, okgen, okexit))
+    ccheck(rep, rule, '_verify', ok, detail, construct='compare',
+           node=cmpn[0] if cmpn else None)
+    # _generations_tuple covers every element
+    f = u.func('_generations_tuple')
+    g = ccfg(f)
+    heads = [n for n in g.nodes if n.e is not None and n.e.k == 'loophead']
+    ok = len(heads) == 1
+    detail = 'loops: %d' % len(heads)
+    if ok:
+        tests = [n for n in g.nodes if n.kind == 'test' and n.e.k == 'bin'
+                 and n.e.a[0] == '<' and is_var(n.e.a[1], 'i') and is_var(n.e.a[2], 'l')]
+        lv = [v for n in g.nodes for k, v in c_assigned(n).items() if k == 'l' and v is not None]
+        okl = bool(lv) and all(v.k == 'call' and v.a[0] == 'PyTuple_GET_SIZE'
+                               and is_var(v.a[1][0], 'ro') for v in lv)
+        iv = [v for n in g.nodes for k, v in c_assigned(n).items() if k == 'i']
+        oki = any(v is not None and v.k == 'const' and v.a[0] == 0 for v in iv)
+        geta = [c for n in g.nodes for c in node_calls(n, 'PyObject_GetAttr')]
+        okg = len(geta) == 1 and show(geta[0].a[1][0]) == 'PyTuple_GET_ITEM(ro, i)' \
+            and show(geta[0].a[1][1]) == 'str_generation'
+        seti = [c for n in g.nodes for c in node_calls(n, 'PyTuple_SET_ITEM')]
+        oks = len(seti) == 1 and [show(a) for a in seti[0].a[1][:2]] == ['generations', 'i']
+        # returns inside the loop only on the error path (NULL)
+        okr = True
+        for r in returns(g):
+            v = r.e.a[0]
+            if v is not None and v.k != 'null':
+                # a non-NULL return must not be inside the loop
+                inloop = heads[0].id in g.reach(r, forward=False) and \
+                    any(t.id in g.reach(r, forward=False) for t in tests) and \
+                    not any(lab == 'F' and m is r or
+                            (lab == 'F' and r.id in g.reach(m, include_start=True,
+                                                            avoid=lambda x: x is heads[0]))
+                            for t in tests for m, lab in t.succ)
+                okr = okr and not inloop
+        ok = bool(tests) and okl and oki and okg and oks and okr
+        detail = ('for i in [0, PyTuple_GET_SIZE(ro)): generation of ro[i] stored '
+                  'at i; no early non-error return (bounds %s/%s/%s, get %s, '
+                  'store %s, no-early-return %s)' % (bool(tests), okl, oki, okg, oks, okr))
+    ccheck(rep, rule, '_generations_tuple', ok, detail, construct='all-elements')
+
+
+def fills(rep, u, rule='INV-4'):
+    for fn, (meth, field, nargs) in UNCACHED.items():
+        f = u.func(fn)
+        g = ccfg(f)
+        sets = [n for n in g.nodes if node_calls(n, 'PyDict_SetItem')]
+        ok = len(sets) == 1
+        detail = 'PyDict_SetItem calls: %d' % len(sets)
+        if ok:
+            c = node_calls(sets[0], 'PyDict_SetItem')[0]
+            cache, key, val = c.a[1]
+            okv = False
+            vd = 'stored value %s' % show(val)
+            if is_var(val):
+                defs = c_reaching(g, sets[0], val.a[0])
+                okv = bool(defs) and all(
+                    v is not None and v.k == 'call' and
+                    v.a[0] == 'PyObject_CallMethodObjArgs' and
+                    show(v.a[1][1]) == meth for d, v in defs)
+                vd = 'value stored in the cache comes only from self.%s(...): %s' % (
+                    meth[3:], [show(v)[:70] if v is not None else 'param' for d, v in defs])
+                if okv:
+                    args = [show(a) for a in defs[0][1].a[1][2:]]
+                    want = ['required', 'provided'] + (['name'] if nargs == 3 else []) + ['NULL']
+                    okv = args == want
+                    vd += '; arguments %s' % args
+            # the container comes from the right cache field
+            okc = False
+            cd = show(cache)
+            if is_var(cache):
+                defs = c_reaching(g, sets[0], cache.a[0])
+                def from_field(v):
+                    if v is None or v.k != 'call':
+                        return False
+                    if v.a[0] == '_getcache':
+                        return field == '_cache' and [show(a) for a in v.a[1]] == \
+                            ['self', 'provided', 'name']
+                    if v.a[0] == '_subcache':
+                        return is_field(v.a[1][0], 'self', field) and show(v.a[1][1]) == 'provided'
+                    return False
+                okc = bool(defs) and all(from_field(v) for d, v in defs)
+                cd = [show(v)[:60] if v is not None else 'param' for d, v in defs]
+            # same container and key are used for the read
+            gets = [c2 for n in g.nodes for c2 in node_calls(n, 'PyDict_GetItem')]
+            okk = len(gets) == 1 and show(gets[0].a[1][0]) == show(cache) and \
+                show(gets[0].a[1][1]) == show(key)
+            ok = okv and okc and okk
+            detail = '%s; container %s (required self->%s); read and write use the same key `%s` (%s)' % (
+                vd, cd, field, show(key), okk)
+        ccheck(rep, rule, fn, ok, detail, construct='fill', node=sets[0] if sets else None)
+    # _getcache reads the _cache field, keyed provided then name
+    f = u.func('_getcache')
+    g = ccfg(f)
+    sc = [c for n in g.nodes for c in node_calls(n, '_subcache')]
+    ok = len(sc) == 2 and show(sc[0].a[1][0]) == 'self->_cache' and \
+        show(sc[0].a[1][1]) == 'provided' and show(sc[1].a[1][1]) == 'name'
+    ccheck(rep, rule, '_getcache', ok,
+           'two-level cache self->_cache[provided][name]: %s' % [show(c) for c in sc],
+           construct='levels')
 
 
 def c05(rep):
-    pass
+    u = cu(rep)
+    inv2_c(rep, u)
+    verify_first(rep, u)
+    verify_compare(rep, u)
+    fills(rep, u)
 
 
 def c06(rep):
-    pass
+    u = cu(rep)
+    # R06.5 snapshot shape in C
+    f = u.func('verify_changed')
+    g = ccfg(f)
+    sl = [c for n in g.nodes for c in node_calls(n, 'PyTuple_GetSlice')]
+    ok = len(sl) == 1
+    detail = 'PyTuple_GetSlice calls: %d' % len(sl)
+    if ok:
+        a = sl[0].a[1]
+        ok = a[1].k == 'const' and a[1].a[0] == 1 and \
+            show(a[2]) == 'PyTuple_GET_SIZE(%s)' % show(a[0])
+        # the sliced tuple is tuple(registry.ro)
+        src = c_reaching(g, [n for n in g.nodes if node_calls(n, 'PyTuple_GetSlice')][0],
+                         a[0].a[0]) if is_var(a[0]) else []
+        oksrc = bool(src) and all(
+            v is not None and v.k == 'call' and v.a[0] == 'PyObject_CallFunctionObjArgs'
+            and 'PyTuple_Type' in show(v.a[1][0]) for d, v in src)
+        getro = [c for n in g.nodes for c in node_calls(n, 'PyObject_GetAttr')]
+        okattr = [show(c.a[1][1]) for c in getro] == ['str_registry', 'strro']
+        ok = ok and oksrc and okattr
+        detail = ('_verify_ro = tuple(self._registry.ro)[1:] (slice %s, source '
+                  '%s, attributes %s)' % (show(sl[0]), oksrc, okattr))
+    ccheck(rep, 'R06.5', 'verify_changed', ok, detail, construct='snapshot')
+    st = {}
+    for n in g.nodes:
+        if n.e is not None and n.e.k == 'expr' and n.e.a[0].k == 'assign' and \
+                n.e.a[0].a[1].k == 'field':
+            st[n.e.a[0].a[1].a[1]] = n.e.a[0].a[2]
+    ok = '_verify_generations' in st and '_verify_ro' in st and \
+        show(st['_verify_generations']) == '_generations_tuple(%s)' % show(st['_verify_ro'])
+    ccheck(rep, 'R06.5', 'verify_changed', ok,
+           'generations are taken from exactly the registries stored in '
+           '_verify_ro: %s' % {k: show(v) for k, v in st.items()},
+           construct='generations')
+    verify_first(rep, u, rule='R06.6')
+    verify_compare(rep, u, rule='R06.6')
+
+
+def name_guard_c(rep, u, rule, fn, first_uses):
+    f = u.func(fn)
+    g = ccfg(f)
+    tests = [n for n in g.nodes if n.kind == 'test' and n.e.k == 'call'
+             and n.e.a[0] == 'PyUnicode_Check' and is_var(n.e.a[1][0], 'name')]
+    ok = len(tests) == 1
+    detail = 'no PyUnicode_Check(name) guard'
+    if ok:
+        t = tests[0]
+        fnext = [m for m, lab in t.succ if lab == 'F']
+        okraise = bool(fnext) and bool(node_calls(fnext[0], 'PyErr_SetString')) and \
+            'PyExc_ValueError' in show(fnext[0].e)
+        okret = False
+        if okraise:
+            nn = [m for m, lab in fnext[0].succ]
+            okret = bool(nn) and nn[0].e is not None and nn[0].e.k == 'return' and \
+                nn[0].e.a[0].k == 'null'
+        uses = [n for n in g.nodes for nm in first_uses if node_calls(n, nm)]
+        # the accepting way past the guard: name == NULL or the check is true
+        def guard(n):
+            return n is t
+        namenull = [n for n in g.nodes if n.kind == 'test' and is_var(n.e, 'name')]
+        okdom = bool(uses) and all(
+            g.dominated_by(x, lambda n: n is t or n in namenull) for x in uses)
+        ok = okraise and okret and okdom
+        detail = ('non-str name raises ValueError and returns NULL (%s/%s) before '
+                  'any of %s (%s)' % (okraise, okret, first_uses, okdom))
+    ccheck(rep, rule, fn, ok, detail, construct='name-guard',
+           node=tests[0] if tests else None)
 
 
 def c08(rep):
-    pass
+    u = cu(rep)
+    name_guard_c(rep, u, 'R08.3', '_lookup', ['_getcache', 'PySequence_Tuple'])
+    name_guard_c(rep, u, 'R08.3', '_lookup1', ['_getcache', '_lookup'])
+    name_guard_c(rep, u, 'R08.3', '_adapter_hook', ['providedBy', '_lookup1'])
+    # R08.2 key agreement in C
+    f = u.func('_lookup')
+    g = ccfg(f)
+    kd = [(n, v) for n in g.nodes for k, v in c_assigned(n).items()
+          if k == 'key' and v is not None and v.k != 'null']
+    ok = len(kd) == 2
+    detail = 'key definitions: %s' % [show(v) for n, v in kd]
+    if ok:
+        one = [n for n, v in kd if show(v) == 'PyTuple_GET_ITEM(required, 0)']
+        tup = [n for n, v in kd if show(v) == 'required']
+        ok = len(one) == 1 and len(tup) == 1
+        if ok:
+            t = [p for p, lab in one[0].pred]
+            ok = len(t) == 1 and t[0].kind == 'test' and \
+                show(t[0].e) == '(PyTuple_GET_SIZE(required) == 1)' and \
+                any(m is one[0] and lab == 'T' for m, lab in t[0].succ) and \
+                any(m is tup[0] and lab == 'F' for m, lab in t[0].succ)
+    ccheck(rep, 'R08.2', '_lookup', ok,
+           'key = required[0] iff PyTuple_GET_SIZE(required) == 1 else the tuple; %s'
+           % detail, construct='keys')
+    f = u.func('_lookup1')
+    g = ccfg(f)
+    gets = [c for n in g.nodes for c in node_calls(n, 'PyDict_GetItem')]
+    ok = len(gets) == 1 and [show(a) for a in gets[0].a[1]] == ['cache', 'required']
+    cd = [v for n in g.nodes for k, v in c_assigned(n).items() if k == 'cache' and v is not None]
+    ok = ok and len(cd) == 1 and show(cd[0]) == '_getcache(self, provided, name)'
+    ccheck(rep, 'R08.2', '_lookup1', ok,
+           'probes _getcache(self, provided, name) with the bare specification',
+           construct='probe')
+    # miss -> _lookup(self, (required,), provided, name, default_)
+    dl = [c for n in g.nodes for c in node_calls(n, '_lookup')]
+    ok = len(dl) == 1 and [show(a) for a in dl[0].a[1]][2:] == ['provided', 'name', 'default_'] \
+        and show(dl[0].a[1][0]) == 'self'
+    if ok:
+        tup = dl[0].a[1][1]
+        seti = [c for n in g.nodes for c in node_calls(n, 'PyTuple_SET_ITEM')]
+        ok = is_var(tup) and len(seti) == 1 and \
+            [show(a) for a in seti[0].a[1]] == [tup.a[0], '0', 'required']
+        new = [v for n in g.nodes for k, v in c_assigned(n).items()
+               if k == tup.a[0] and v is not None]
+        ok = ok and len(new) == 1 and show(new[0]) == 'PyTuple_New(1)'
+    ccheck(rep, 'R08.1', '_lookup1', ok,
+           'miss delegates to _lookup(self, (required,), provided, name, default_)',
+           construct='delegate')
+    # hit table of _lookup1: None && default given -> default
+    hit = [n for n in g.nodes if n.kind == 'test' and show(n.e) == '(result == Py_None)']
+    ok = len(hit) == 1
+    if ok:
+        t2 = [m for m, lab in hit[0].succ if lab == 'T']
+        ok = bool(t2) and t2[0].kind == 'test' and show(t2[0].e) == '(default_ != NULL)'
+        if ok:
+            st = [m for m, lab in t2[0].succ if lab == 'T']
+            ok = bool(st) and show(st[0].e) == 'result = default_'
+    ccheck(rep, 'R08.5', '_lookup1', ok,
+           'cached None with a default -> the default; otherwise the cached value',
+           construct='table')
+    # _adapter_hook
+    f = u.func('_adapter_hook')
+    g = ccfg(f)
+    rq = [v for n in g.nodes for k, v in c_assigned(n).items() if k == 'required' and v is not None]
+    okr = len(rq) == 1 and show(rq[0]) == 'providedBy(module, object)'
+    l1 = [c for n in g.nodes for c in node_calls(n, '_lookup1')]
+    okl = len(l1) == 1 and [show(a) for a in l1[0].a[1]] == \
+        ['self', 'required', 'provided', 'name', 'Py_None']
+    ccheck(rep, 'R08.1', '_adapter_hook', okr and okl,
+           'looks up (providedBy(object),) via _lookup1(self, required, provided, '
+           'name, None): %s / %s' % ([show(v) for v in rq], [show(c) for c in l1]),
+           construct='delegate')
+    fc = [n for n in g.nodes if node_calls(n, 'PyObject_CallFunctionObjArgs')]
+    ok = len(fc) == 1
+    detail = 'factory calls: %d' % len(fc)
+    if ok:
+        c = node_calls(fc[0], 'PyObject_CallFunctionObjArgs')[0]
+        okargs = [show(a) for a in c.a[1]] == ['factory', 'object', 'NULL']
+        guard = [n for n in g.nodes if n.kind == 'test' and show(n.e) == '(factory != Py_None)']
+        okg = len(guard) == 1 and g.dominated_by(fc[0], lambda n: n is guard[0]) and \
+            fc[0].id in g.reach([m for m, lab in guard[0].succ if lab == 'T'][0],
+                                include_start=True)
+        sup = [n for n in g.nodes if n.kind == 'test' and
+               show(n.e) == 'PyObject_TypeCheck(object, &PySuper_Type)']
+        oks = len(sup) == 1
+        if oks:
+            ga = [n for n in g.nodes for k, v in c_assigned(n).items()
+                  if v is not None and show(v) == 'PyObject_GetAttr(object, str__self__)']
+            re = [n for n in g.nodes if n.e is not None and show(n.e) == 'object = self']
+            oks = len(ga) == 1 and len(re) == 1 and \
+                g.dominated_by(re[0], lambda n: n is sup[0]) and \
+                fc[0].id in g.reach(re[0]) and \
+                all(re[0].id in g.reach(x) for x in nodes_calling(g, '_lookup1'))
+        ok = okargs and okg and oks
+        detail = ('factory(object) (%s) only when factory is not None (%s); a '
+                  'super proxy is replaced by its __self__ after the lookup and '
+                  'before the call (%s)' % (okargs, okg, oks))
+    ccheck(rep, 'R08.5', '_adapter_hook', ok, detail, construct='call')
+    # result: NULL/non-None returned, None -> default when given
+    rets = returns(g)
+    vals = sorted(show(r.e.a[0]) for r in rets)
+    okv = set(vals) <= {'NULL', 'result', 'default_'} and 'default_' in vals and 'result' in vals
+    dn = [r for r in rets if show(r.e.a[0]) == 'default_']
+    okd = all(any(p.kind != 'test' for p, l in r.pred) for r in dn)
+    ccheck(rep, 'R08.5', '_adapter_hook', okv,
+           'returns the factory result when it is not None, else the default '
+           '(or None): %s' % vals, construct='result')
+    # queryAdapter(object, provided) -> _adapter_hook(provided, object)
+    for fn in ('LB_queryAdapter', 'LB_adapter_hook'):
+        f = u.func(fn)
+        g = ccfg(f)
+        kw = [n.e.a[2] for n in g.nodes if n.e is not None and n.e.k == 'decl'
+              and n.e.a[0] == 'kwlist']
+        names = [x.a[0] for x in kw[0].a[0] if x is not None and x.k == 'str'] if kw else []
+        pa = [c for n in g.nodes for c in node_calls(n, 'PyArg_ParseTupleAndKeywords')]
+        outs = [show(a)[1:] for a in pa[0].a[1][4:]] if pa else []
+        want_names = ['object', 'provided', 'name', 'default'] if fn == 'LB_queryAdapter' \
+            else ['provided', 'object', 'name', 'default']
+        okn = names == want_names and \
+            [o.rstrip('_') for o in outs] == [w for w in want_names]
+        c = [c for n in g.nodes for c in node_calls(n, '_adapter_hook')]
+        okc = len(c) == 1 and [show(a) for a in c[0].a[1]] == \
+            ['self', 'provided', 'object', 'name', 'default_']
+        ccheck(rep, 'R08.1', fn, okn and okc,
+               'keywords %s bound to %s; worker called as _adapter_hook(self, '
+               'provided, object, name, default_) (%s)' % (names, outs, okc),
+               construct='permutation')
+    lookup_default_c(rep, u, 'R08.5')
+
+
+def lookup_default_c(rep, u, rule):
+    """_lookup: the substitution None -> default happens after the cache
+    store, returns default_ iff result is None and a default was given."""
+    f = u.func('_lookup')
+    g = ccfg(f)
+    rd = [r for r in returns(g) if show(r.e.a[0]) == 'default_']
+    ok = len(rd) == 1
+    detail = '`return default_` sites: %d' % len(rd)
+    if ok:
+        r = rd[0]
+        t1 = [n for n in g.nodes if n.kind == 'test' and show(n.e) == '(result == Py_None)']
+        t2 = [n for n in g.nodes if n.kind == 'test' and show(n.e) == '(default_ != NULL)']
+        okg = len(t1) == 1 and len(t2) == 1 and \
+            g.dominated_by(r, lambda n: n is t1[0]) and g.dominated_by(r, lambda n: n is t2[0])
+        sets = nodes_calling(g, 'PyDict_SetItem')
+        # no path from the None-test back to the store (substitution after store)
+        okafter = okg and all(s.id not in g.reach(t1[0]) for s in sets)
+        ok = okg and okafter
+        detail = ('default_ returned iff result == Py_None and default_ != NULL '
+                  '(%s); the test comes after the cache store (%s)' % (okg, okafter))
+    ccheck(rep, rule, '_lookup', ok, detail, construct='default')
+
+
+def c04(rep):
+    u = cu(rep)
+    lookup_default_c(rep, u, 'R04.6')
+    fills_one(rep, u, 'R04.6')
+
+
+def fills_one(rep, u, rule):
+    f = u.func('_lookup')
+    g = ccfg(f)
+    sets = [n for n in g.nodes if node_calls(n, 'PyDict_SetItem')]
+    ok = len(sets) == 1
+    detail = 'stores: %d' % len(sets)
+    if ok:
+        c = node_calls(sets[0], 'PyDict_SetItem')[0]
+        val = c.a[1][2]
+        defs = c_reaching(g, sets[0], val.a[0]) if is_var(val) else []
+        ok = bool(defs) and all(
+            v is not None and v.k == 'call' and v.a[0] == 'PyObject_CallMethodObjArgs'
+            and show(v.a[1][1]) == 'str_uncached_lookup' for d, v in defs)
+        detail = ('the negative/positive cache stores exactly what '
+                  '_uncached_lookup returned (never the caller\'s default): %s'
+                  % [show(v)[:60] if v is not None else 'param' for d, v in defs])
+    ccheck(rep, rule, '_lookup', ok, detail, construct='stored-value',
+           node=sets[0] if sets else None)
 
 
 def c02(rep):
